@@ -274,6 +274,7 @@ var c04IndexTable = map[string]string{
 	"internal/simplecue.generator.declareNumberConstraints input[1] #4":                               "a bound printed by cue/format is an operator followed by its operand: at least two bytes",
 	"internal/simplecue.generator.declareNumberConstraints part[0]":                                   "parts come from strings.Split of the formatted expression on \" & \": cue/format prints no empty operand",
 	"internal/simplecue.generator.declareNumberConstraints part[0] #2":                                "parts come from strings.Split of the formatted expression on \" & \": cue/format prints no empty operand",
+	"internal/simplecue.generator.declareNumberConstraints part[0] #3":                                "parts come from strings.Split of the formatted expression on \" & \": cue/format prints no empty operand",
 	"internal/simplecue.generator.declareList dvals[0]":                                               "Value.Expr() on a value that has a default returns the disjunction's operands: at least one",
 	"internal/simplecue.generator.stringOrIntegerFromEnum conjuncts[0]":                               "appendSplit returns at least the value itself, and the function leaves when len(conjuncts) == 1: two or more conjuncts",
 	"internal/simplecue.generator.stringOrIntegerFromEnum conjuncts[1] #2":                            "appendSplit returns at least the value itself, and the function leaves when len(conjuncts) == 1: two or more conjuncts",
